@@ -45,7 +45,7 @@ def _check_layout(fs, max_bytes, backup_count, nwritten, payloads, first_index=0
     allowed = [NAME] + ['%s.%d' % (NAME, i) for i in range(1, backup_count + 1)]
     for name in fs.files:
         if name not in allowed:
-            rt.note('unexpected file', name)
+            rt.note('unexpected file %r', name)
             return False
     if NAME not in fs.files:
         rt.note('active file missing')
@@ -68,15 +68,15 @@ def _check_layout(fs, max_bytes, backup_count, nwritten, payloads, first_index=0
     idxs = [i for i, _s in seq]
     # contiguous, each once, ending with the latest write
     if idxs[-1] != first_index + nwritten - 1:
-        rt.note('latest write not retained last', idxs)
+        rt.note('latest write not retained last %r', idxs)
         return False
     for a, b in zip(idxs, idxs[1:]):
         if b != a + 1:
-            rt.note('retained data not contiguous', idxs)
+            rt.note('retained data not contiguous %r', idxs)
             return False
     for i, s in seq:
         if i >= first_index and s is not payloads[i - first_index] and s != payloads[i - first_index]:
-            rt.note('written text differs from payload', i)
+            rt.note('written text differs from payload %r', i)
             return False
     return True
 
